@@ -59,7 +59,7 @@ CHECKS = {"twin": check_twin}
 USERS = [None, "", "u"]
 PWS = [None, "", "p"]
 HOSTS = ["", "h", "[::1]", "h."]
-PORTS = [None, "", "0", "77"]
+PORTS = [None, "", "0", "77", "99999", "http", "080"]
 SCHEMES = ["", "x-y", "http", "file"]
 TAILS = ["", "/", "/p?q#f", "?#", "?q"]
 
